@@ -16,7 +16,9 @@ const maxInlineDepth = 4
 
 func (fr *Frame) call(c *ssa.CallCommon, instr *ssa.Call, st *State, pos token.Pos) Val {
 	name := "dynamic"
-	if c.IsInvoke() {
+	if b, ok := c.Value.(*ssa.Builtin); ok {
+		name = "builtin:" + b.Name()
+	} else if c.IsInvoke() {
 		name = "iface:" + ifaceMethodName(c.Value.Type(), c.Method)
 	} else if sc := c.StaticCallee(); sc != nil {
 		name = fr.fx.eng.shortName(sc)
@@ -1157,7 +1159,7 @@ func (fr *Frame) anchoredAsserts(name string, c *ssa.CallCommon, st *State, pos 
 // ghostAnchors applies ghostset / ghostclear directives anchored at the given event ("call:<name>", "mapupdate:<type>", "lookup:<type>").
 func (fr *Frame) ghostAnchors(event string, st *State) {
 	fx := fr.fx
-	if !fr.top || fx.contract == nil {
+	if fx.contract == nil {
 		return
 	}
 	if os.Getenv("GOVC_DEBUG") != "" {
@@ -1180,8 +1182,16 @@ func (fr *Frame) ghostAnchors(event string, st *State) {
 // eventAsserts checks `assert @<event-glob> expr` clauses for non-call events (map reads / writes).
 func (fr *Frame) eventAsserts(event string, st *State, pos token.Pos, vars ...map[string]SVal) {
 	fx := fr.fx
-	if !fr.top || fx.contract == nil {
+	if fx.contract == nil {
 		return
+	}
+	if !fr.top {
+		// a map operation inside an inlined helper (set insert / lookup): checked against the contract of the
+		// function under verification, in the scope of its own variables
+		if fx.topFrame == nil {
+			return
+		}
+		fr = fx.topFrame
 	}
 	for _, a := range fx.contract.Asserts {
 		if strings.HasPrefix(a.Anchor, "call:") || strings.HasPrefix(a.Anchor, "store:") || !globMatch(a.Anchor, event) {
